@@ -137,6 +137,10 @@ fn finalise(f: IntermediateAggregationResults, aggs: &Aggregations) -> Out {
 }
 
 /// names of the terms nodes that some segment may truncate (distinct keys > segment_size)
+fn has_composite(nodes: &[Node]) -> bool {
+    nodes.iter().any(|n| matches!(n.agg, Agg::Composite { .. }) || has_composite(&n.subs))
+}
+
 fn may_truncate(nodes: &[Node], docs: &[MDoc], parts: &[Vec<usize>], q: Q, out: &mut Vec<String>) {
     for n in nodes {
         if let Agg::Terms { field, size, seg, mdc, order, missing } = &n.agg {
@@ -204,6 +208,7 @@ fn key_of(whr: &str, nodes: &[Node]) -> String {
 }
 
 pub struct CaseIn<'a> { pub docs: &'a [MDoc], pub nodes: &'a [Node], pub q: Q }
+fn c_in<'a>(docs: &'a [MDoc], nodes: &'a [Node], q: Q) -> CaseIn<'a> { CaseIn { docs, nodes, q } }
 
 fn case_json(c: &CaseIn, parts: &[Vec<usize>], what: &str) -> Value {
     json!({"kind": what, "docs": c.docs, "nodes": c.nodes, "query": c.q, "parts": parts,
@@ -529,8 +534,67 @@ pub fn check_request(ctx: &mut Ctx, rng: &mut Rng, corpus: &Corpus, nodes: &[Nod
         let line = format!("C14 spec {} {}", nodes_to_lean(nodes, false, &ranks), parts_to_lean(&corpus.docs, &[matching_ids.clone()], &ranks));
         let m = ctx.model.ask(&line);
         let mine = srs_to_lean(&srs, &ranks);
+        // and the per-value specification (what the mechanism computes for every input)
+        let mpv = ctx.model.ask(&format!("C14 specpv {} {}", nodes_to_lean(nodes, false, &ranks), parts_to_lean(&corpus.docs, &[matching_ids.clone()], &ranks)));
+        let minepv = srs_to_lean(&srs_pv, &ranks);
+        ctx.report.count("model:evalAggPV-compared");
+        if mpv != minepv {
+            ctx.report.violation("model", "C14:lean-evalAggPV-differs-from-harness-evaluator", format!("lean {} vs harness {}", &mpv[..mpv.len().min(300)], &minepv[..minepv.len().min(300)]), case_json(&c, &[matching_ids.clone()], "spec"));
+        }
         if m != mine {
             ctx.report.violation("model", "C14:lean-evalAgg-differs-from-harness-evaluator", format!("lean {} vs harness {}", &m[..m.len().min(300)], &mine[..mine.len().min(300)]), case_json(&c, &[matching_ids.clone()], "spec"));
+        }
+    }
+
+    // model: the Lean normalisation of range requests (extend_validate_ranges) = the cut points the
+    // harness evaluates with (which are compared with the real buckets' from / to / key)
+    fn range_nodes<'a>(nodes: &'a [Node], out: &mut Vec<&'a Node>) { for n in nodes { if matches!(n.agg, Agg::Range { .. }) { out.push(n); } range_nodes(&n.subs, out); } }
+    let mut rnodes = vec![];
+    range_nodes(nodes, &mut rnodes);
+    for n in rnodes {
+        if let Agg::Range { field, ranges } = &n.agg {
+            let o = |x: Option<i64>| x.map(|v| v.to_string()).unwrap_or("_".into());
+            let enc: Vec<String> = ranges.iter().map(|(a, b, _)| {
+                let a = match a { Some(a) if *field == Fd::U && *a <= 0 => None, x => *x };
+                format!("{}:{}", o(a), o(*b))
+            }).collect();
+            let m = ctx.model.ask(&format!("C14 normranges {}", enc.join(";")));
+            let cuts = range_cuts(*field, ranges);
+            let mine = if cuts.is_empty() { "-".to_string() } else { cuts.iter().map(|c| c.to_string()).collect::<Vec<_>>().join(",") };
+            ctx.report.count("model:range-normalisation-compared");
+            if m != mine {
+                ctx.report.violation("model", "C14:lean-range-normalisation-differs", format!("lean {m} vs harness {mine}"), case_json(&c_in(&corpus.docs, nodes, q), &[], "spec"));
+            }
+        }
+    }
+
+    // model: the Lean extended_stats accumulator (Welford + Chan over exact rationals, sigma carried
+    // in the fruit) on the values of every segment = the exact count / Σv / Σv² / M2 and the request's sigma
+    for (n, sr) in nodes.iter().zip(srs.iter()) {
+        if let (Agg::Metric { kind: MK::ExtStats, field, missing, .. }, SR::Metric { count, sum, sumsq, .. }) = (&n.agg, sr) {
+            if field.is_str() { continue; }
+            let parts = &corpus.segs[corpus.segs.len() - 1].0;
+            let enc: Vec<String> = parts.iter().map(|p| {
+                let vs: Vec<String> = p.iter().filter(|&&i| q.matches(&corpus.docs[i])).flat_map(|&i| super::spec::metric_vals(*field, *missing, &corpus.docs[i])).map(|v| v.to_string()).collect();
+                if vs.is_empty() { "-".to_string() } else { vs.join(",") }
+            }).collect();
+            let s4 = n.opt.sigma4.unwrap_or(8);
+            let m = ctx.model.ask(&format!("C14 extstats {s4} {}", enc.join("|")));
+            let frac = |num: i128, den: i128| -> String {
+                fn gcd(a: i128, b: i128) -> i128 { if b == 0 { a.abs() } else { gcd(b, a % b) } }
+                let g = gcd(num, den).max(1);
+                let (mut a, mut b) = (num / g, den / g);
+                if b < 0 { a = -a; b = -b; }
+                if b == 1 { a.to_string() } else { format!("{a}/{b}") }
+            };
+            let c = *count as i128;
+            let m2 = if c == 0 { "0".to_string() } else { frac(c * *sumsq - *sum * *sum, c) };
+            let sigma = if c == 0 { "2".to_string() } else { frac(s4 as i128, 4) };
+            let mine = format!("{count} {sum} {sumsq} {m2} {sigma}");
+            ctx.report.count("model:extstats-accumulator-compared");
+            if m != mine {
+                ctx.report.violation("model", "C14:lean-extstats-accumulator-differs", format!("lean {m} vs exact {mine}"), case_json(&c_in(&corpus.docs, nodes, q), parts, "final"));
+            }
         }
     }
 
@@ -557,6 +621,42 @@ pub fn check_request(ctx: &mut Ctx, rng: &mut Rng, corpus: &Corpus, nodes: &[Nod
                     normalise_ties(nodes, &mut crs2);
                     let mine = cr_counts_lean(nodes, &crs2, &ranks);
                     ctx.report.count("model:merged-compared");
+                    // a single top-level composite: the model with per-segment eviction gives the same page
+                    if nodes.len() == 1 && matches!(nodes[0].agg, Agg::Composite { .. }) && !mparts.is_empty() {
+                        let mt = ctx.model.ask(&format!("C14 mergedtrim {} {}", nodes_to_lean(nodes, true, &ranks), parts_to_lean(&corpus.docs, &mparts, &ranks)));
+                        ctx.report.count("model:composite-eviction-compared");
+                        if mt != m {
+                            ctx.report.violation("model", "C14:lean-composite-eviction-visible", format!("with eviction {} vs without {}", &mt[..mt.len().min(300)], &m[..m.len().min(300)]), case_json(&c, parts, "final"));
+                        }
+                    }
+                    // a composite anywhere in the request: eviction at every composite node of every segment is invisible
+                    if has_composite(nodes) && !mparts.is_empty() {
+                        let rq = nodes_to_lean(nodes, true, &ranks);
+                        let ev = ctx.model.ask(&format!("C14 mergedevict {} {}", rq, parts_to_lean(&corpus.docs, &mparts, &ranks)));
+                        let all: Vec<Vec<usize>> = vec![mparts.iter().flatten().cloned().collect()];
+                        let wh = ctx.model.ask(&format!("C14 whole {} {}", rq, parts_to_lean(&corpus.docs, &all, &ranks)));
+                        ctx.report.count("model:composite-eviction-anywhere-compared");
+                        if ev != wh {
+                            ctx.report.violation("model", "C14:lean-nested-composite-eviction-visible", format!("evicted {} vs whole {}", &ev[..ev.len().min(300)], &wh[..wh.len().min(300)]), case_json(&c, parts, "final"));
+                        }
+                        // no terms node can be truncated: the complete segment model (cut + eviction) is exact
+                        if mt.is_empty() {
+                            let fu = ctx.model.ask(&format!("C14 mergedfull {} {}", rq, parts_to_lean(&corpus.docs, &mparts, &ranks)));
+                            ctx.report.count("model:full-segment-model-compared");
+                            if fu != wh {
+                                ctx.report.violation("model", "C14:lean-full-segment-model-not-exact", format!("full {} vs whole {}", &fu[..fu.len().min(300)], &wh[..wh.len().min(300)]), case_json(&c, parts, "final"));
+                            }
+                        }
+                    }
+                    // a single top-level terms ordered by _key (ascending or descending): exact under truncation (Lean decides applicability)
+                    if nodes.len() == 1 && matches!(nodes[0].agg, Agg::Terms { .. }) && !mparts.is_empty() {
+                        let ka = ctx.model.ask(&format!("C14 keyasc {} {}", nodes_to_lean(nodes, true, &ranks), parts_to_lean(&corpus.docs, &mparts, &ranks)));
+                        if ka == "same" {
+                            ctx.report.count("model:terms-key-order-exact-compared");
+                        } else if ka != "n/a" {
+                            ctx.report.violation("model", "C14:lean-terms-key-order-not-exact", ka[..ka.len().min(400)].to_string(), case_json(&c, parts, "final"));
+                        }
+                    }
                     if m != mine && srs == srs_pv && !corpus.docs.is_empty() {
                         ctx.report.violation("model", "C14:lean-merge-model-differs-from-real", format!("lean {} vs real {}", &m[..m.len().min(300)], &mine[..mine.len().min(300)]), case_json(&c, parts, "final"));
                     }
@@ -996,9 +1096,12 @@ pub fn run(ctx: &mut Ctx) {
     ctx.report.correspondence_obligations = vec![
         "searcher.search(AggregationCollector) result = direct evaluation over the matching documents (counts, keys, min, max exact; sums 1e-9; sketches within documented error)".into(),
         "Lean evalAgg text = harness direct evaluator text (exact)".into(),
+        "Lean evalAggPV text = harness per-value evaluator text (exact; the per-value evaluator is what the real result is attributed with for multi-valued documents)".into(),
         "Lean merge model (collectSeg / mergeFruits / finalize) = real keys, counts, sum_other_doc_count, doc_count_error_upper_bound".into(),
         "final result identical for every segmentation, for separate indexes merged in random schedules and through postcard".into(),
         "bucket / memory limits: Err or the complete result; Lean guard model agrees".into(),
+        "Lean normRanges (extend_validate_ranges: sort, extend, reject overlaps, fill holes) = the cut points whose buckets are compared with the real from / to / key".into(),
+        "Lean extended_stats accumulator (Welford + Chan over Rat, sigma in the fruit) = exact count, sum, sum of squares, M2 and the request's sigma (the real f64 result is compared with the same exact values)".into(),
     ];
     std::panic::set_hook(Box::new(|info| {
         if let Ok(mut s) = LAST_PANIC.lock() { *s = info.to_string().chars().take(300).collect(); }
